@@ -585,10 +585,17 @@ dns {
 routing { fallback: direct }
 `
 
+// c09Writer is the client's dnsmessage.ResponseWriter.  Like a real one it serialises the message it is
+// handed — but not before every other writer that has been handed a message in the same step has
+// been entered too (gate): all coalesced waiters of a flight have then patched "their" message, and
+// whatever they share shows in what each of them packs.
 type c09Writer struct {
-	mu  sync.Mutex
-	msg *dnsmessage.Msg
-	n   int
+	mu      sync.Mutex
+	msg     *dnsmessage.Msg
+	n       int
+	gate    chan struct{} // nil: serialise at once
+	entered atomic.Bool
+	passed  bool
 }
 
 func (w *c09Writer) LocalAddr() net.Addr       { return nil }
@@ -599,8 +606,12 @@ func (w *c09Writer) Hijack()                   {}
 func (w *c09Writer) Close() error              { return nil }
 func (w *c09Writer) Write([]byte) (int, error) { return 0, nil }
 func (w *c09Writer) WriteMsg(m *dnsmessage.Msg) error {
+	if w.gate != nil {
+		w.entered.Store(true)
+		<-w.gate
+	}
 	w.mu.Lock()
-	// what a real writer does: serialise now
+	// what a real writer does: serialise
 	b, err := m.Pack()
 	if err == nil {
 		w.msg = new(dnsmessage.Msg)
@@ -620,13 +631,18 @@ type c09Att struct {
 	rcode   int
 	tc      bool
 	ans     int
+	ttl0    bool // the answer record has TTL 0 (stored, but expired at the very next lookup)
 }
 
 func (a c09Att) tok() string {
 	if a.fail {
 		return "fail"
 	}
-	return fmt.Sprintf("m:%d:%s:%s:%d:%s:%d", a.id, a.q, c09B(a.resp), a.rcode, c09B(a.tc), a.ans)
+	t := fmt.Sprintf("m:%d:%s:%s:%d:%s:%d", a.id, a.q, c09B(a.resp), a.rcode, c09B(a.tc), a.ans)
+	if a.ttl0 {
+		t += ":1"
+	}
+	return t
 }
 
 type c09Call struct {
@@ -668,6 +684,9 @@ func (f *c09ScriptFwd) ForwardDNS(ctx context.Context, data []byte) (*dnsmessage
 		m.Question = []dnsmessage.Question{{Name: name, Qtype: uint16(qt), Qclass: dnsmessage.ClassINET}}
 		if a.ans != 0 {
 			m.Answer = []dnsmessage.RR{c09AnswerRR(dnsmessage.CanonicalName(name), uint16(qt), a.ans)}
+			if a.ttl0 {
+				m.Answer[0].Header().Ttl = 0
+			}
 		}
 	}
 	if a.tc && f.l4 == consts.L4ProtoStr_UDP {
@@ -797,6 +816,33 @@ func c09Routing() *componentdns.Dns {
 	return routing
 }
 
+// settle: run the real code until every goroutine is blocked; writers that have been entered are then
+// let through together (in a seeded order), and so on until nothing moves.
+func (w *c09CtlWorld) settle(r *VRand) {
+	for {
+		synctest.Wait()
+		var ready []*c09Writer
+		for _, c := range w.clients {
+			if c.w.gate != nil && c.w.entered.Load() && !c.w.passed {
+				ready = append(ready, c.w)
+			}
+		}
+		if len(ready) == 0 {
+			return
+		}
+		if len(ready) > 1 {
+			w.stat.Inc("ctl.writers.rendezvous")
+			w.stat.Add("ctl.writers.rendezvous.size", len(ready))
+		}
+		for len(ready) > 0 {
+			i := r.Intn(len(ready))
+			ready[i].passed = true
+			close(ready[i].gate)
+			ready = append(ready[:i], ready[i+1:]...)
+		}
+	}
+}
+
 func (w *c09CtlWorld) ncalls() int {
 	w.mu.Lock()
 	defer w.mu.Unlock()
@@ -911,7 +957,7 @@ func (w *c09CtlWorld) start(c *c09Client) {
 	}()
 }
 
-func c09GenAtt(r *VRand, c *c09Client, stat *VStats, pool []int) c09Att {
+func c09GenAtt(r *VRand, c *c09Client, stat *VStats, pool []int, optimistic bool) c09Att {
 	switch r.Intn(16) {
 	case 0:
 		stat.Inc("ctl.att.fail")
@@ -958,6 +1004,10 @@ func c09GenAtt(r *VRand, c *c09Client, stat *VStats, pool []int) c09Att {
 		a.resp = false
 		stat.Inc("ctl.att.qr-clear")
 	}
+	if !optimistic && a.ans != 0 && a.rcode == 0 && r.Chance(0.1) {
+		a.ttl0 = true
+		stat.Inc("ctl.att.ttl0")
+	}
 	return a
 }
 
@@ -984,10 +1034,23 @@ func c09RunCtlScenario(r *VRand, st *VStream, stat *VStats, routing *componentdn
 	routes := []string{"a", "a", "u", "t", "b", "b", "r"}
 	route := routes[r.Intn(len(routes))]
 	mixRoutes := r.Chance(0.25)
+	// k >= 2 identical questions (different IDs and spellings) in flight together, answered with something
+	// that is NOT kept in the cache: every waiter then takes the post-flight "shared message" branch
+	coalesce := !optimistic && r.Chance(0.3)
+	if coalesce {
+		mixRoutes = false
+		if route == "r" {
+			route = "a"
+		}
+		if nc < 3 {
+			nc = 3
+		}
+		stat.Inc("ctl.scenario.coalesce-uncached")
+	}
 	var toks []string
 	for i := 0; i < nc; i++ {
 		c := &c09Client{id: ids[r.Intn(2)], n: names[r.Intn(2)], sp: r.Intn(8), qtype: []int{1, 1, 1, 28}[r.Intn(4)], route: route, dst: 0,
-			w: &c09Writer{}, done: make(chan error, 1)}
+			w: &c09Writer{gate: make(chan struct{})}, done: make(chan error, 1)}
 		if r.Chance(0.6) || optimistic && r.Chance(0.6) {
 			c.n = names[0] // mostly the same question
 			c.qtype = 1
@@ -997,6 +1060,9 @@ func c09RunCtlScenario(r *VRand, st *VStream, stat *VStats, routing *componentdn
 		}
 		if c.route == "a" && r.Chance(0.3) {
 			c.dst = 1 + r.Intn(2)
+		}
+		if coalesce {
+			c.id, c.n, c.qtype, c.route, c.dst = (ids[0]+i*7919)%65536, names[0], 1, route, 0
 		}
 		w.clients = append(w.clients, c)
 		toks = append(toks, c.tok())
@@ -1034,7 +1100,7 @@ func c09RunCtlScenario(r *VRand, st *VStream, stat *VStats, routing *componentdn
 				running = append(running, f)
 			}
 		}
-		doArrive := arrived < nc && (len(running) == 0 || r.Chance(0.6))
+		doArrive := arrived < nc && (len(running) == 0 || r.Chance(0.6) || coalesce && r.Chance(0.9))
 		switch {
 		case doArrive:
 			c := w.clients[arrived]
@@ -1047,7 +1113,7 @@ func c09RunCtlScenario(r *VRand, st *VStream, stat *VStats, routing *componentdn
 					w.ctrl.concurrencyLimiter <- struct{}{}
 				}
 				w.start(c)
-				synctest.Wait()
+				w.settle(r)
 				for i := inflight; i < cap(w.ctrl.concurrencyLimiter); i++ {
 					<-w.ctrl.concurrencyLimiter
 				}
@@ -1071,7 +1137,7 @@ func c09RunCtlScenario(r *VRand, st *VStream, stat *VStats, routing *componentdn
 			}
 			spBefore := spellOf()
 			w.start(c)
-			synctest.Wait()
+			w.settle(r)
 			w.poll()
 			if spAfter := spellOf(); c.fin && spBefore >= 0 && spAfter >= 0 && spAfter != spBefore {
 				// the hit re-packed the entry (TTL drift > 15 s of virtual time) with this request's qname
@@ -1105,15 +1171,15 @@ func c09RunCtlScenario(r *VRand, st *VStream, stat *VStats, routing *componentdn
 			ageNext = false
 			// every cached answer becomes stale (2 h of virtual time); not an event of the model
 			time.Sleep(2 * time.Hour)
-			synctest.Wait()
+			w.settle(r)
 			stat.Inc("ctl.op.age")
 		case len(refreshes) > 0 && r.Chance(0.7):
 			rf := refreshes[0]
 			refreshes = refreshes[1:]
 			c := w.clients[rf.client]
 			pool := []int{names[0], names[1], 9}
-			a1 := c09GenAtt(r, c, stat, pool)
-			a2 := c09GenAtt(r, c, stat, pool)
+			a1 := c09GenAtt(r, c, stat, pool, optimistic)
+			a2 := c09GenAtt(r, c, stat, pool, optimistic)
 			w.mu.Lock()
 			call := w.calls[rf.call]
 			w.mu.Unlock()
@@ -1122,7 +1188,7 @@ func c09RunCtlScenario(r *VRand, st *VStream, stat *VStats, routing *componentdn
 			if a1.timeout {
 				time.Sleep(consts.DefaultDialTimeout + time.Second)
 			}
-			synctest.Wait()
+			w.settle(r)
 			if w.ncalls() > nBefore {
 				w.mu.Lock()
 				call2 := w.calls[len(w.calls)-1]
@@ -1131,7 +1197,7 @@ func c09RunCtlScenario(r *VRand, st *VStream, stat *VStats, routing *componentdn
 				if a2.timeout {
 					time.Sleep(consts.DefaultDialTimeout + time.Second)
 				}
-				synctest.Wait()
+				w.settle(r)
 			}
 			// a refresh that did not produce a fresh entry makes the deferred clean-up drop the stale one
 			want := fmt.Sprintf("%d.%d.%d>", c09NameTok(c.n, c.route), c.qtype, c.scope())
@@ -1167,8 +1233,23 @@ func c09RunCtlScenario(r *VRand, st *VStream, stat *VStats, routing *componentdn
 				}
 			}
 			pool := []int{names[0], names[1], 9}
-			a1 := c09GenAtt(r, f.leader, stat, pool)
-			a2 := c09GenAtt(r, f.leader, stat, pool)
+			a1 := c09GenAtt(r, f.leader, stat, pool, optimistic)
+			a2 := c09GenAtt(r, f.leader, stat, pool, optimistic)
+			if coalesce && r.Chance(0.85) {
+				l := f.leader
+				a1 = c09Att{id: l.id, q: fmt.Sprintf("%d.%d.%d", c09NameTok(l.n, l.route), r.Intn(8), l.qtype), resp: true}
+				switch r.Intn(4) {
+				case 0:
+					a1.rcode = 3 // NXDOMAIN
+				case 1:
+					a1.rcode = 2 // SERVFAIL
+				case 2:
+					a1.rcode = 5 // REFUSED
+				default:
+					a1.ans, a1.ttl0 = 1+r.Intn(900), true // NOERROR, TTL 0
+				}
+				stat.Inc(fmt.Sprintf("ctl.coalesce.uncached.rcode%d", a1.rcode))
+			}
 			if optimistic && fi == 0 && r.Chance(0.8) {
 				// a well-behaved first answer, so that there is something to go stale
 				l := f.leader
@@ -1183,7 +1264,7 @@ func c09RunCtlScenario(r *VRand, st *VStream, stat *VStats, routing *componentdn
 			if a1.timeout {
 				time.Sleep(consts.DefaultDialTimeout + time.Second)
 			}
-			synctest.Wait()
+			w.settle(r)
 			if w.ncalls() > nBefore {
 				// TCP fallback attempt of the same resolution
 				stat.Inc("ctl.fallback.tcp-attempt")
@@ -1194,7 +1275,7 @@ func c09RunCtlScenario(r *VRand, st *VStream, stat *VStats, routing *componentdn
 				if a2.timeout {
 					time.Sleep(consts.DefaultDialTimeout + time.Second)
 				}
-				synctest.Wait()
+				w.settle(r)
 			}
 			f.done = true
 			w.poll()
@@ -1235,7 +1316,7 @@ func c09RunCtlScenario(r *VRand, st *VStream, stat *VStats, routing *componentdn
 			}
 		}
 		w.mu.Unlock()
-		synctest.Wait()
+		w.settle(r)
 		w.poll()
 	}
 	for _, c := range w.clients {
@@ -1288,7 +1369,129 @@ func TestVerifC09Ctl(t *testing.T) {
 		}
 		stat.Inc("ctl.errreply." + kind)
 	}
+	c09UdpPath(r, st, stat, routing)
 	stat.Write("c09ctl")
+}
+
+// c09UdpPath: the packet-send path (no ResponseWriter: Handle_ packs and sends through sendPkt).  k
+// clients with their own loopback sockets ask the same question under different IDs and spellings while
+// the upstream answer is withheld; the answer is alternately cacheable and not (NXDOMAIN), so both
+// writeCachedResponse's byte patch and the per-waiter Pack+patch of the shared message are exercised.
+// Real time, real sockets; a line is emitted only for a wrong reply.
+func c09UdpPath(r *VRand, st *VStream, stat *VStats, routing *componentdns.Dns) {
+	rounds := 300
+	if VThorough() {
+		rounds = 1500
+	}
+	oldFactory, oldPool := dnsForwarderFactory, DefaultAnyfromPool
+	pool := &AnyfromPool{}
+	for i := range anyfromPoolShardCount {
+		pool.shards[i].pool = make(map[netip.AddrPort]*Anyfrom, 16)
+	}
+	DefaultAnyfromPool = pool
+	defer func() { dnsForwarderFactory, DefaultAnyfromPool = oldFactory, oldPool }()
+	listen := func() *net.UDPConn {
+		c, err := net.ListenUDP("udp4", &net.UDPAddr{IP: net.IPv4(127, 0, 0, 1)})
+		if err != nil {
+			panic(err)
+		}
+		return c
+	}
+	replyConn, listenerConn := listen(), listen()
+	defer replyConn.Close()
+	defer listenerConn.Close()
+	replyAddr := replyConn.LocalAddr().(*net.UDPAddr).AddrPort()
+	af := &Anyfrom{UDPConn: replyConn, ttl: AnyfromTimeout}
+	af.RefreshTtl()
+	shard := pool.shardFor(replyAddr)
+	shard.mu.Lock()
+	shard.pool[replyAddr] = af
+	shard.mu.Unlock()
+
+	w := newC09CtlWorld(st, stat, routing, false)
+	defer w.ctrl.Close()
+	dnsForwarderFactory = func(up *componentdns.Upstream, da dialArgument, _ *logrus.Logger) (DnsForwarder, error) {
+		return &c09ScriptFwd{w: w, l4: da.l4proto}, nil
+	}
+	for round := 0; round < rounds; round++ {
+		k := 2 + r.Intn(5)
+		crowd := round%2 == 0
+		if crowd {
+			// a crowd: nothing can hold the waiters between "patch" and "send" on this path, so overlap is
+			// sought by numbers
+			k = 40 + r.Intn(40)
+		}
+		n := 30 + round%60
+		uncached := crowd || round%4 == 1
+		type cl struct {
+			conn *net.UDPConn
+			id   int
+			sp   int
+			err  chan error
+		}
+		var cls []*cl
+		w.ctrl.dnsCache.Range(func(k, _ any) bool { // names repeat across rounds: start every round cold
+			w.ctrl.RemoveDnsRespCache(k.(string))
+			return true
+		})
+		nBefore := w.ncalls()
+		for i := 0; i < k; i++ {
+			c := &cl{conn: listen(), id: (1000*round + 37*i + 5) % 65536, sp: r.Intn(8), err: make(chan error, 1)}
+			cls = append(cls, c)
+			q := new(dnsmessage.Msg)
+			q.SetQuestion(c09Name(n, c.sp, "a"), dnsmessage.TypeA)
+			q.Id = uint16(c.id)
+			src := c.conn.LocalAddr().(*net.UDPAddr).AddrPort()
+			req := &udpRequest{realSrc: src, realDst: replyAddr, src: src, lConn: listenerConn, routingResult: &bpfRoutingResult{}}
+			go func() { c.err <- w.ctrl.Handle_(context.Background(), q, req) }()
+			if i == 0 { // the leader must be inside its upstream exchange before the others arrive
+				for d := 0; w.ncalls() == nBefore && d < 2000; d++ {
+					time.Sleep(time.Millisecond)
+				}
+			}
+		}
+		time.Sleep(15 * time.Millisecond) // followers reach sf.Do
+		a := c09Att{id: cls[0].id, q: fmt.Sprintf("%d.%d.%d", n, cls[0].sp, 1), resp: true, ans: 1 + r.Intn(900)}
+		if uncached {
+			a.rcode, a.ans = 3, 0
+		}
+		w.mu.Lock()
+		var call *c09Call
+		if len(w.calls) > nBefore {
+			call = w.calls[nBefore]
+		}
+		w.mu.Unlock()
+		if call == nil {
+			st.Emit(fmt.Sprintf("C udppath round=%d no upstream exchange started", round), "stuck")
+			continue
+		}
+		call.release <- a
+		for i, c := range cls {
+			want := fmt.Sprintf("id=%d,name=%d,qtype=1", c.id, n)
+			got := "no-reply"
+			buf := make([]byte, 2048)
+			_ = c.conn.SetReadDeadline(time.Now().Add(3 * time.Second))
+			if m, _, err := c.conn.ReadFromUDPAddrPort(buf); err == nil {
+				var msg dnsmessage.Msg
+				if msg.Unpack(buf[:m]) == nil && len(msg.Question) == 1 {
+					nn, _, _ := c09ParseName(msg.Question[0].Name)
+					got = fmt.Sprintf("id=%d,name=%d,qtype=%d", msg.Id, nn, msg.Question[0].Qtype)
+				} else {
+					got = "unparsable"
+				}
+			}
+			select {
+			case <-c.err:
+			case <-time.After(3 * time.Second):
+			}
+			if got != want {
+				st.Emit(fmt.Sprintf("C udppath round=%d waiter=%d of %d uncached=%v want %s", round, i, k, uncached, want), got)
+			}
+			stat.Inc(fmt.Sprintf("ctl.udppath.reply.uncached=%v", uncached))
+			c.conn.Close()
+		}
+		stat.Add("ctl.udppath.coalesced", w.ncalls()-nBefore)
+	}
 }
 
 var _ = binary.BigEndian
